@@ -2,6 +2,7 @@
 import copy
 import importlib
 import os
+import re as _re
 import subprocess
 
 from .. import framework as F
@@ -134,6 +135,15 @@ class C20(F.Check):
             subdir = os.path.join(self.workdir, "single_subset")
             make_single_file(subdir, ["--units"] + pick + ["--constants", "speed_of_light"], repo)
             meters_only_variants.append(("subset", "c++14", {"id": "subset", "includes": single_inc, "inc_dirs": [subdir]}))
+            # identifiers declared by the unit / constant headers that are NOT in the subset: a kernel mentioning one cannot use this variant
+            self.subset_forbidden = set()
+            for sub in ("units", "constants"):
+                hd = os.path.join(F.INC, "au", sub)
+                for f in os.listdir(hd):
+                    if not f.endswith(".hh") or f.endswith("_fwd.hh") or (sub == "units" and f[:-3] in pick) or (sub == "constants" and f[:-3] == "speed_of_light"):
+                        continue
+                    txt = open(os.path.join(hd, f)).read()
+                    self.subset_forbidden |= set(_re.findall(r"struct (\w+)", txt)) | set(_re.findall(r"constexpr (?:auto|\w+<[^>]*>) (\w+)\s*[={]", txt))
             variants.append(("twice", "c++14", {"id": "twice", "includes": single_inc + "\n" + single_inc, "inc_dirs": [sdir]}))
         # link probes: two translation units using labels, numeric_limits members, streaming (ODR-uses of static data members), compiled at -O0,
         # linked and run under both compilers, every -std, multi-header tree and single-file header
@@ -188,8 +198,7 @@ class C20(F.Check):
                 base.family = "%s/%s" % (d, k.family)
                 ks.append(base)
                 vs = list(variants)
-                if "Meters" in k.body and not any(u in k.body for u in ("Feet", "Seconds", "Inches", "Hertz", "Degrees", "Radians")) \
-                        and not dpre:
+                if meters_only_variants and not dpre and not (set(_re.findall(r"\w+", k.body)) & self.subset_forbidden):
                     vs += meters_only_variants
                 for vid, std, var in vs:
                     if var is not None and dpre and "au::" in dpre and False:
